@@ -196,3 +196,8 @@ package peering
 //@   callsite Peering.AddLink only-after-complete-handshake [C04]: peeringState != nil && peeringState.step == 4 && peeringState.session != nil && link.peer == peeringState.session.address.IP && link.encSession != nil
 //@ func Peering.AddLink
 //@   callers LinkBase.setupWorker, LinkBase.handleSetup
+
+// GetLinks copies the registry under its lock (its body sorts the copy with a library function that is not modelled).
+//@ func Peering.GetLinks
+//@   option trusted
+//@   modifies nothing
